@@ -12,7 +12,7 @@
  *   rb <n,n,…> <probeMax> <totMax>           update_received_blocks sequence + check_* queries
  *   body <bodyLen> <seed> <off:len:total,…>  coap_block_build_body sequence
  *   srcv <szx> <bodyLen> <seed> <size1|-> <num:m[:len],…>   coap_handle_request_put_block sequence (SINGLE_BODY)
- *   srcv2 <maxBlk> <bodyLen> <seed> <size1|-> <num.m.szx,…>  the same with a block size per step and a server block size limit
+ *   srcv2 <maxBlk> <bodyLen> <seed> <size1|-> <num.m.szx[.len],…>  the same with a block size per step and a server block size limit
  *   srcv3 <maxBlk> <len1> <seed1> <len2> <seed2> <size1:0|1> <t.num.m.szx.r,…>   two interleaved Block1 transfers to ONE resource,
  *                                              told apart by Request-Tag only (r: 0 absent, 1 EMPTY, 2..9 / 10..17 = 1..8 bytes)
  *   crcv <single> <bodyLen> <seed> <size2|-> <num.m.szx.etag.fmt[.len[.s2]],…>   coap_handle_response_get_block sequence (client, Block2)
@@ -35,11 +35,12 @@
 void *__real_coap_malloc_type(coap_memory_tag_t type, size_t size);
 void *__real_coap_realloc_type(coap_memory_tag_t type, void *p, size_t size);
 void __real_coap_free_type(coap_memory_tag_t type, void *p);
+#define H_POISON_MAX ((size_t)1 << 26)      /* a body buffer of the size a hostile Size1/Size2 announces is left alone */
 static uint8_t h_poison = 0xA5;
 static long h_live;
 void *__wrap_coap_malloc_type(coap_memory_tag_t type, size_t size) {
   void *p = __real_coap_malloc_type(type, size);
-  if (p) { memset(p, h_poison, size); h_live++; }
+  if (p) { if (size <= H_POISON_MAX) memset(p, h_poison, size); h_live++; }
   return p;
 }
 void *__wrap_coap_realloc_type(coap_memory_tag_t type, void *p, size_t size) {
@@ -47,7 +48,7 @@ void *__wrap_coap_realloc_type(coap_memory_tag_t type, void *p, size_t size) {
   void *q = __real_coap_realloc_type(type, p, size);
   if (q) {
     if (!p) h_live++;
-    if (size > old) memset((uint8_t *)q + old, h_poison, size - old);
+    if (size > old && size - old <= H_POISON_MAX) memset((uint8_t *)q + old, h_poison, size - old);
   }
   return q;
 }
@@ -324,7 +325,8 @@ static void do_srcv(unsigned szx, size_t bodyLen, unsigned seed, long size1, cha
   free(body);
 }
 
-/* srcv2 <maxBlk> <bodyLen> <seed> <size1|-> <num.m.szx,…> : every step has its own SZX, payload = the genuine slice */
+/* srcv2 <maxBlk> <bodyLen> <seed> <size1|-> <num.m.szx[.len],…> : every step has its own SZX, payload = the genuine slice
+ * (or its first <len> bytes).  All srcv* lines are run twice with different allocation poisons (` UNINIT` if they differ). */
 static void do_srcv2(unsigned maxBlk, size_t bodyLen, unsigned seed, long size1, char *seq) {
   sim_reset();
   sim_log_enabled = 0;
@@ -349,11 +351,14 @@ static void do_srcv2(unsigned maxBlk, size_t bodyLen, unsigned seed, long size1,
     int added = 0, ret;
     coap_lg_srcv_t *free_lg = NULL;
     size_t chunk, off, plen;
-    if (sscanf(tok, "%u.%u.%u", &num, &m, &szx) != 3 || szx > 6) { printf("bad-op"); break; }
+    long len = -1;
+    int nf = sscanf(tok, "%u.%u.%u.%ld", &num, &m, &szx, &len);
+    if (nf < 3 || szx > 6 || (nf == 4 && len < 0)) { printf("bad-op"); break; }
     chunk = (size_t)1 << (szx + 4);
     off = (size_t)num * chunk;
     if (off > bodyLen) off = bodyLen;
     plen = bodyLen - off < chunk ? bodyLen - off : chunk;
+    if (len >= 0 && (size_t)len <= plen) plen = (size_t)len;      /* a payload shorter than the slice */
     req = coap_pdu_init(COAP_MESSAGE_CON, COAP_REQUEST_CODE_PUT, (coap_mid_t)(100 + k), 2048);
     rsp = coap_pdu_init(COAP_MESSAGE_ACK, 0, (coap_mid_t)(100 + k), 2048);
     coap_add_token(req, 2, tk);
@@ -776,7 +781,7 @@ static char *cap_end(void) { fclose(stdout); stdout = h_saved; return h_cap; }
 
 static void step(char *line) {
   long live0 = h_live;
-  if (!strncmp(line, "crcv ", 5)) {
+  if (!strncmp(line, "crcv ", 5) || !strncmp(line, "srcv", 4)) {
     /* whatever the receiving application is handed must not depend on bytes nobody wrote */
     char *copy = strdup(line), *a, *b;
     h_poison = 0xA5; cap_begin(); step1(line); a = cap_end();
